@@ -72,7 +72,11 @@ func (pc *planCase) payload(path string) (any, []*Canary, string) {
 	if pc.r.Chance(pc.PMethods) {
 		// a hand-declared type with methods (json.Marshaler, TextMarshaler, Stringer, error): see methods.go
 		pc.nStatic++
-		pl := &planter{n: pc.nStatic * 150}
+		pl := &planter{n: pc.nStatic * 200}
+		if pc.r.Chance(0.5) {
+			x, name := pl.recPayload(pc.r.Intn(3*nRecPayloads), path) // recursive types: see recursive.go
+			return x, pl.cans, name
+		}
 		x, name := pl.methodPayload(pc.r.Intn(nMethodPayloads), path)
 		return x, pl.cans, name
 	}
